@@ -54,7 +54,9 @@ cp $OUT/$v.diff $D/patch.diff
 python3 - "$D" "$id" "$v" "$caught" "$detail" "$checks" <<'PY'
 import json,sys,re
 D,id,v,caught,detail,checks=sys.argv[1:7]
-readme=open(f'/tmp/wt-{id}/OUT/README.md').read() if True else ''
+import os
+rp=f'/tmp/wt-{id}/OUT/'+('README2.md' if v in ('c','d') else 'README.md')
+readme=open(rp).read() if os.path.exists(rp) else ''
 meta={"breaks_property":id,"variant":v,"source":"independent sub-agent given only the property text and a scratch worktree",
  "needs_to_manifest":"see description",
  "description_from_author":readme,
